@@ -3,6 +3,7 @@ may depend on (checked against Print Assumptions on every run)."""
 from sfv import STDLIB_AXIOMS_ALLOWED
 
 THEOREMS = {
+    "C01": [],
     "C18": ["C18_size", "C18_record_len", "C18_record_bytes"],
     "C19": ["C19_decode_iff", "C19_image", "C19_injective", "C19_table", "C19_predicates"],
 }
